@@ -353,3 +353,56 @@ Proof.
   intros HS Hops Hq. rewrite get_exact by auto.
   apply (designated_candidates S _ _ seq (RelX_run ops _ _ RelX_empty)).
 Qed.
+
+(* ---- the clearing loop of Add, run literally, is its closed form ---- *)
+Lemma filter_filter {A} (f g : A -> bool) l : filter f (filter g l) = filter (fun x => g x && f x) l.
+Proof.
+  induction l as [|a l IH]; simpl; auto. destruct (g a) eqn:G; simpl; [|exact IH].
+  destruct (f a); simpl; rewrite IH; reflexivity.
+Qed.
+
+Lemma filter_true {A} (l : list A) : filter (fun _ => true) l = l.
+Proof. induction l; simpl; congruence. Qed.
+
+Lemma clear_loop_gen S hi n : forall a pkts,
+  fold_left (fun pk k => slot_clear S pk (add16 hi (k + 1) mod S)) (zrange a n) pkts =
+  filter (fun p => negb (existsb (fun k => slot S p =? add16 hi (k + 1) mod S) (zrange a n))) pkts.
+Proof.
+  induction n as [|n IH]; intros a pkts; simpl.
+  - symmetry. apply filter_true.
+  - rewrite IH. unfold slot_clear. rewrite filter_filter. apply filter_ext. intros p.
+    destruct (slot S p =? add16 hi (a + 1) mod S); reflexivity.
+Qed.
+
+Lemma loop_hits S hi k s d : In S valid_sizes -> 0 <= k < d - 1 ->
+  s = add16 hi (k + 1) mod S -> (s - (hi + 1)) mod S < d - 1.
+Proof. intros H. unfold add16. sizes H; lia. Qed.
+
+Lemma loop_reaches S hi s : In S valid_sizes -> 0 <= s < S ->
+  s = add16 hi ((s - (hi + 1)) mod S + 1) mod S.
+Proof. intros H. unfold add16. sizes H; lia. Qed.
+
+Theorem clear_loop_closed S pkts hi diff : In S valid_sizes -> 0 < diff ->
+  clear_loop S pkts hi (Z.to_nat (diff - 1)) = clear_between S pkts hi diff.
+Proof.
+  intros HS Hd. pose proof (size_pos S HS) as HSp.
+  unfold clear_loop, clear_between. rewrite clear_loop_gen. apply filter_ext. intros p. f_equal.
+  assert (Hs : 0 <= slot S p < S) by (unfold slot; apply Z.mod_pos_bound; lia).
+  destruct ((slot S p - (hi + 1)) mod S <? diff - 1) eqn:E.
+  - apply existsb_exists. exists ((slot S p - (hi + 1)) mod S). split.
+    + apply zrange_In. lia.
+    + apply Z.eqb_eq. apply loop_reaches; auto.
+  - destruct (existsb _ _) eqn:Ex; [|reflexivity]. exfalso.
+    apply existsb_exists in Ex as [k [Hk Hq]]. apply zrange_In in Hk. apply Z.eqb_eq in Hq.
+    pose proof (loop_hits S hi k (slot S p) diff HS) as L. lia.
+Qed.
+
+(* Add with the loop run literally = Add with the closed form *)
+Theorem rb_add_loop_eq b p : In (rb_size b) valid_sizes -> rb_add_loop b p = rb_add b p.
+Proof.
+  intros HS. unfold rb_add_loop, rb_add. cbv zeta.
+  destruct (negb (rb_started b)); [reflexivity|].
+  destruct (sub16 (rp_seq p) (rb_hi b) =? 0) eqn:E0; [reflexivity|].
+  destruct (sub16 (rp_seq p) (rb_hi b) <? H16); [|reflexivity].
+  rewrite clear_loop_closed; auto. pose proof (sub16_range (rp_seq p) (rb_hi b)). lia.
+Qed.
